@@ -12,10 +12,13 @@
 (* grid level where the tool reports one.  A line is judged with the       *)
 (* requirement operators of Mesh.tla: every pixel shows                    *)
 (* CoverSpec(M, lim, p) and its grid level is CoverLevel(M, lim, p).       *)
+(* A pestle line carries, per level, the integral of that level's          *)
+(* INDICATOR field expressed in lattice cells; it must be the number of    *)
+(* cells of that level in IntegralCells(M, lim).                           *)
 (* The spec never blocks: failing clauses are collected per line and       *)
 (* printed when the last line has been consumed.                           *)
 (***************************************************************************)
-EXTENDS Mesh, Json, IOUtils
+EXTENDS Mesh, Json, IOUtils, FiniteSets
 
 TheTrace == ndJsonDeserialize(IOEnv.TRACE_FILE)
 VARIABLES l, viol
@@ -28,9 +31,16 @@ Want(ln, p) == LET cs == CoverSpec(ln.mesh, ln.lim, p) IN <<cs[1], cs[2][1], cs[
 WellFormedMesh(ln) ==
   /\ BaseCovers(ln.mesh, ln.n1, ln.n2)
   /\ \A k \in 2..Len(ln.mesh) : \A b \in DOMAIN ln.mesh[k] : Aligned(ln.mesh[k][b]) /\ NestedIn(ln.mesh[k][b], ln.mesh, k - 1)
+\* pestle lines: for every level l <= lim the integral of the indicator field of level l, divided by the cell volume of that level
+\* and by the cells per lattice cell, is the NUMBER of lattice cells of level l that no finer selected level covers
+CountOf(ln, lv) == Cardinality({ic \in IntegralCells(ln.mesh, ln.lim) : ic[1] = lv})
+PestleClauses(ln) ==
+  IF ln.outcome # "ok" THEN {"raised"}
+  ELSE IF \E lv \in 0..ln.lim : ln.counts[lv + 1] # CountOf(ln, lv) THEN {"level-volume-is-not-the-uncovered-cells"} ELSE {}
 Clauses(ln) ==
   (IF ~WellFormedMesh(ln) THEN {"MACHINERY-mesh-not-well-formed"} ELSE {}) \cup
-  (IF ln.outcome # "ok" THEN {"raised"} ELSE
+  (IF ln.tool = "pestle" THEN PestleClauses(ln) ELSE
+   IF ln.outcome # "ok" THEN {"raised"} ELSE
      (IF Len(ln.grid) # ln.n1 * Pow2(ln.lim) \/ \E i \in DOMAIN ln.grid : Len(ln.grid[i]) # ln.n2 * Pow2(ln.lim) THEN {"grid-shape"}
       ELSE (IF \E p \in Px(ln) : Shown(ln, p) # Want(ln, p) THEN {"pixel-is-not-the-covering-cell"} ELSE {}) \cup
            (IF ln.hasglev /\ \E p \in Px(ln) : ln.glev[p[1] + 1][p[2] + 1] # CoverLevel(ln.mesh, ln.lim, p)
